@@ -122,6 +122,29 @@ def rule_pinray(fx, rep):
 PIN_ROLES = ("orthogonal_pins", "diagonal_pins", "check_mask")
 
 
+_PAIR_MEMO = {}
+
+
+def pair_field_from_get_pins(fx, fname):
+    """the cache field `fname` is written (outside its constructor literal) only with the result of pins::get_pins"""
+    key = (id(fx), fname)
+    if key not in _PAIR_MEMO:
+        srcs = []
+        for b in fx.fn_bodies():
+            if not norm(b.name).startswith("chess::movegen::gen::"):
+                continue
+            for bb, j, s in b.stmts():
+                if s["k"] == "assign" and any(isinstance(p, dict) and p.get("n") == fname and norm(p.get("adt", "")).endswith("MovegenCache") for p in s["lhs"].get("p", [])):
+                    e = b.expr(s["rv"].get("op"), expand_named=True, at=bb) if s["rv"]["k"] == "use" else None
+                    srcs.append(bool(e) and bool(find_calls(e, "pins::get_pins")) and isinstance(deep_strip(e), tuple) and deep_strip(e)[0] == "call")
+            for bb, t in b.calls():
+                d = t["dest"]
+                if any(isinstance(p, dict) and p.get("n") == fname and norm(p.get("adt", "")).endswith("MovegenCache") for p in d.get("p", [])):
+                    srcs.append(norm(callee_name(t) or "").endswith("pins::get_pins"))
+        _PAIR_MEMO[key] = bool(srcs) and all(srcs)
+    return _PAIR_MEMO[key]
+
+
 def param_roles(fx, f):
     """{param index: role} for the parameters of a piece generator that, at every call site, receive the orthogonal pin mask,
     the diagonal pin mask or the check mask (from pins::get_pins / the movegen cache / the `check_mask` local)"""
@@ -133,6 +156,10 @@ def param_roles(fx, f):
             if isinstance(e, tuple) and e[0] == "field" and e[2] in PIN_ROLES:
                 r = e[2]
             elif isinstance(e, tuple) and e[0] == "field" and e[2] in ("0", "1") and find_calls(e[1], "pins::get_pins"):
+                r = {"0": "orthogonal_pins", "1": "diagonal_pins"}[e[2]]
+            elif isinstance(e, tuple) and e[0] == "field" and e[2] in ("0", "1") and isinstance(deep_strip(e[1]), tuple) and deep_strip(e[1])[0] == "field" and \
+                    pair_field_from_get_pins(fx, deep_strip(e[1])[2]):
+                # the two masks kept as one tuple field of the cache, filled from pins::get_pins
                 r = {"0": "orthogonal_pins", "1": "diagonal_pins"}[e[2]]
             else:
                 e2 = deep_strip(cb.expr(a, expand_named=False, at=bb))
@@ -828,8 +855,21 @@ def rule_flags(fx, rep):
         k = [t.split("::")[-1] for t in tags if "PromotionPieceKind::" in t]
         if val != "otherwise" and k:
             rd[fl_by_discr.get(val, val)] = k[0]
+    undecided_promo = 0
     for ctor, prefix in (("Move::quiet_promotion", "PromoteTo"), ("Move::capture_promotion", "CaptureAndPromoteTo")):
-        tbl = match_table(fx.one(ctor))
+        cbody = fx.one(ctor)
+        tbl = match_table(cbody)
+        if not any(v != "otherwise" for v in tbl):
+            # the kind -> label table may sit in a helper returning Flags that is handed the promotion kind
+            for hbb, ht in cbody.calls():
+                hb = fx.body(callee_name(ht)) if callee_name(ht) else None
+                if hb is not None and hb is not cbody and (hb.local_ty(0) or "").endswith("moves::Flags") and \
+                        any(deep_strip(cbody.expr(a, expand_named=True, at=hbb))[:2] == ("arg", 3) for a in ht["args"]):
+                    tbl = match_table(hb)
+        if not any(v != "otherwise" for v in tbl):
+            rep.notes.append(f"C01-FLAGS: the kind -> label table of `{ctor}` is not a `match` in the constructor or in a Flags-valued helper it calls; not decided")
+            undecided_promo += 4
+            continue
         for val, tags in tbl.items():
             if val == "otherwise":
                 continue
@@ -859,7 +899,7 @@ def rule_flags(fx, rep):
         rep.obligation(good)
         if not good:
             bad(f"pred/{fn}", f"`{fn}` does not compare the move's flags with Flags::{lab}", fb)
-    rep.rule("C01-FLAGS", n, 25, ok, "move-label encoding: constructors, constants, promotion tables")
+    rep.rule("C01-FLAGS", n, 25 - undecided_promo, ok, "move-label encoding: constructors, constants, promotion tables")
 
 
 def match_table(body):
